@@ -173,6 +173,16 @@ func ReuseWAL(cfg *config.Config, dir string, nextSeq uint64) (*WAL, error) {
 	// Try the most recent one (last in sorted order)
 	latestWAL := files[len(files)-1]
 
+	// Never append behind a partially written or damaged record: entries added
+	// after it could not be read back. Leave the file as it is and let the
+	// caller start a new one.
+	if !endsCleanly(latestWAL) {
+		if !DisableRecoveryLogs {
+			fmt.Printf("Latest WAL file does not end cleanly, not reusing it: %s\n", latestWAL)
+		}
+		return nil, nil
+	}
+
 	// Try to open for append
 	file, err := os.OpenFile(latestWAL, os.O_RDWR|os.O_APPEND, 0644)
 	if err != nil {
@@ -1028,7 +1038,7 @@ func (w *WAL) getEntriesFromFile(filename string, minSequence uint64) ([]*Entry,
 	for {
 		entry, err := reader.ReadEntry()
 		if err != nil {
-			if err == io.EOF {
+			if err == io.EOF || isTruncatedTail(err) {
 				break
 			}
 			// Skip corrupted entries but continue reading
